@@ -21,6 +21,7 @@ func main() {
 	lemma := flag.String("lemma", "", "lemma name to check")
 	timeout := flag.Int("t", 10, "solver timeout (s)")
 	ssaDump := flag.String("ssa", "", "print SSA of function key(s)")
+	propFlag := flag.String("prop", "", "verify every function and lemma tagged with this property")
 	flag.Parse()
 	eng, err := loadEngine(*repo, findSpecFiles(*trusted))
 	if err != nil {
@@ -61,7 +62,32 @@ func main() {
 		}
 		return
 	}
+	if *propFlag != "" {
+		var ks []string
+		for _, f := range eng.contracts.funcsWithProp(*propFlag) {
+			if !f.Assume && !f.Opaque {
+				ks = append(ks, f.Key)
+			}
+		}
+		*fnKey = strings.Join(ks, ",")
+		for _, l := range eng.contracts.Lemmas {
+			for _, p := range l.Props {
+				if p == *propFlag {
+					fc, err := eng.lemmaCtx(l)
+					if err != nil {
+						fmt.Println(err)
+						continue
+					}
+					fc.solveAll(opts, "lemma_"+l.Name)
+					report(fc)
+				}
+			}
+		}
+	}
 	for _, k := range strings.Split(*fnKey, ",") {
+		if k == "" {
+			continue
+		}
 		fn := eng.funcByKey[k]
 		if fn == nil {
 			fmt.Fprintln(os.Stderr, "no function", k)
